@@ -2,17 +2,14 @@
    (Docs::get_doc_lines, Docs::to_markdown, DocsUrlGenerator::gen_for_rust_link).
    Strings are byte strings (Rust's UTF-8 bytes).  A result of None stands for a panic of the implementation
    (index out of range, unwrap on None, arithmetic overflow, unreachable!).
-   Modelled, not verified: HashMap lookup as first-match association (the generator uses distinct keys);
+   Regenerated from the source on every run (gen/Tables.v): the DocType variants and the three per-kind tables.
+   Modelled, not verified: the control skeleton of gen_for_rust_link (tablegen checks its landmarks), HashMap lookup as first-match association (the generator uses distinct keys);
    str::trim as stripping the ASCII white space characters only. *)
 From Coq Require Import List String Ascii Arith Bool DecimalString.
 Import ListNotations.
+From DV Require Import gen.Tables.
 Open Scope string_scope.
 Local Notation length := List.length (only parsing).
-
-Inductive doc_type :=
-| DStruct | DStructField | DEnum | DEnumVariant | DEnumVariantField | DTrait | DFnInStruct | DFnInTypedef | DFnInEnum
-| DFnInTrait | DDefaultFnInTrait | DFn | DMod | DConstant | DAssocConstInEnum | DAssocConstInTrait | DAssocConstInStruct
-| DMacro | DAssocTypeInEnum | DAssocTypeInTrait | DAssocTypeInStruct | DTypedef.
 
 Inductive display := Normal | Compact | Hidden.
 
@@ -20,37 +17,12 @@ Record link := mkLink { l_path : list string; l_typ : doc_type; l_disp : display
 Record urlgen := mkGen { g_default : option string; g_bases : list (string * string) }.
 Record docs := mkDocs { d_lines : list string; d_links : list link }.
 
-(* how many trailing path segments name the item (and its member, and the member's field) *)
-Definition need (t : doc_type) : nat :=
-  match t with
-  | DMod => 0
-  | DStruct | DEnum | DTrait | DFn | DMacro | DConstant | DTypedef => 1
-  | DEnumVariantField => 3
-  | _ => 2
-  end.
-
-Definition page_prefix (t : doc_type) : option string :=
-  match t with
-  | DTypedef | DFnInTypedef => Some "type."
-  | DStruct | DStructField | DFnInStruct | DAssocTypeInStruct | DAssocConstInStruct => Some "struct."
-  | DEnum | DEnumVariant | DEnumVariantField | DFnInEnum | DAssocTypeInEnum | DAssocConstInEnum => Some "enum."
-  | DTrait | DFnInTrait | DDefaultFnInTrait | DAssocTypeInTrait | DAssocConstInTrait => Some "trait."
-  | DFn => Some "fn."
-  | DConstant => Some "constant."
-  | DMacro => Some "macro."
-  | DMod => None                      (* unreachable!() *)
-  end.
-
-Definition anchor (t : doc_type) : option string :=
-  match t with
-  | DFnInStruct | DFnInEnum | DDefaultFnInTrait | DFnInTypedef => Some "#method."
-  | DAssocTypeInStruct | DAssocTypeInEnum | DAssocTypeInTrait => Some "#associatedtype."
-  | DAssocConstInStruct | DAssocConstInEnum | DAssocConstInTrait => Some "#associatedconstant."
-  | DFnInTrait => Some "#tymethod."
-  | DEnumVariant | DEnumVariantField => Some "#variant."
-  | DStructField => Some "#structfield."
-  | _ => None
-  end.
+(* the per-kind tables are regenerated from gen_for_rust_link's match arms on every run (gen/Tables.v, Tie A): how many
+   trailing path segments name the item (and its member, and the member's field); the page prefix (None: the
+   unreachable!() arm); the member anchor (None: the link ends at the item's page) *)
+Definition need : doc_type -> nat := doc_need.
+Definition page_prefix : doc_type -> option string := doc_page_prefix.
+Definition anchor : doc_type -> option string := doc_anchor.
 
 Definition is_evf (t : doc_type) : bool := match t with DEnumVariantField => true | _ => false end.
 
